@@ -28,7 +28,7 @@ type ncWorld struct {
 	armed    atomic.Bool // only the initializer of the scope created by the test nests (not its children's)
 	reached  chan struct{}
 	release  chan struct{}
-	innerErr atomic.Value // error of the nested CreateScope ("" = ok)
+	innerErr atomic.Value  // error of the nested CreateScope ("" = ok)
 	singDone chan struct{} // closed when the disposable singleton has been closed by provider.Close
 	once     sync.Once
 	closed   atomic.Int32
